@@ -730,6 +730,9 @@ func matchKeySig(q *carddav.AddressBookQuery, card vcard.Card) string {
 		return out
 	}
 	pf := &q.PropFilters[0]
+	if fields := card[pf.Name]; len(fields) > 1 && fields[0] != nil && !pf.IsNotDefined {
+		return out + multiSig(e, pf, fields)
+	}
 	if len(pf.TextMatches) < 2 {
 		return out + "|" + pfSig(pf, card, true)
 	}
@@ -741,6 +744,9 @@ func matchKeySig(q *carddav.AddressBookQuery, card vcard.Card) string {
 		out += ",params"
 	}
 	fields := card[pf.Name]
+	if len(fields) > 1 && fields[0] != nil && !pf.IsNotDefined {
+		return out + multiSig(e, pf, fields)
+	}
 	if len(fields) == 0 || fields[0] == nil {
 		if _, keyed := card[pf.Name]; keyed {
 			out += ",key-without-fields"
@@ -759,6 +765,27 @@ func matchKeySig(q *carddav.AddressBookQuery, card vcard.Card) string {
 		out += e.text(&pf.TextMatches[k], fields[0].Value).String()
 	}
 	return out + "]"
+}
+
+// multiSig: a failing prop-filter on a property with several instances is
+// keyed by what the filter says of the first instance and of the others (the
+// question being which instance stands for the property), not by its
+// text-matches.
+func multiSig(e *evaluator, pf *carddav.PropFilter, fields []*vcard.Field) string {
+	one := func(f *vcard.Field) vset {
+		return e.propOnChildren(pf, func(tm *carddav.TextMatch) vset { return e.text(tm, f.Value) })
+	}
+	var later vset
+	for _, f := range fields[1:] {
+		if f != nil {
+			later |= one(f)
+		}
+	}
+	out := "|pf[" + testClass(string(pf.Test)) + ",several-instances"
+	if len(pf.Params) > 0 {
+		out += ",params"
+	}
+	return out + ",first-instance=" + one(fields[0]).String() + ",later-instances=" + later.String() + "]"
 }
 
 // findingKey is computed on the SHRUNK case.
